@@ -495,3 +495,78 @@ func lemmaRTStructInteger(tag, tag2 int, v int32, rest []byte) (x int32, err err
 	})
 	return x, err, dec.buf
 }
+
+// Reuse (C20, history independence of the binary writer): whatever a writer has been used for before,
+// after Clear it produces, for the same call, exactly the bytes a fresh writer produces.
+
+//@ lemma lemmaReuseInteger
+//@   requires w != nil
+//@   ensures bytes_eq(a, b)
+
+func lemmaReuseInteger(w *ttlvWriter, tag int, v int32) (a, b []byte) {
+	w.Clear()
+	w.Integer(tag, v)
+	f := &ttlvWriter{}
+	f.Integer(tag, v)
+	return w.buf, f.buf
+}
+
+//@ lemma lemmaReuseLongInteger
+//@   requires w != nil
+//@   ensures bytes_eq(a, b)
+
+func lemmaReuseLongInteger(w *ttlvWriter, tag int, v int64) (a, b []byte) {
+	w.Clear()
+	w.LongInteger(tag, v)
+	f := &ttlvWriter{}
+	f.LongInteger(tag, v)
+	return w.buf, f.buf
+}
+
+//@ lemma lemmaReuseEnum
+//@   requires w != nil
+//@   ensures bytes_eq(a, b)
+
+func lemmaReuseEnum(w *ttlvWriter, tag int, v uint32) (a, b []byte) {
+	w.Clear()
+	w.Enum(0, tag, v)
+	f := &ttlvWriter{}
+	f.Enum(0, tag, v)
+	return w.buf, f.buf
+}
+
+//@ lemma lemmaReuseBool
+//@   requires w != nil
+//@   ensures bytes_eq(a, b)
+
+func lemmaReuseBool(w *ttlvWriter, tag int, v bool) (a, b []byte) {
+	w.Clear()
+	w.Bool(tag, v)
+	f := &ttlvWriter{}
+	f.Bool(tag, v)
+	return w.buf, f.buf
+}
+
+//@ lemma lemmaReuseBitmask
+//@   requires w != nil
+//@   ensures bytes_eq(a, b)
+
+func lemmaReuseBitmask(w *ttlvWriter, tag int, v int32) (a, b []byte) {
+	w.Clear()
+	w.Bitmask(0, tag, v)
+	f := &ttlvWriter{}
+	f.Bitmask(0, tag, v)
+	return w.buf, f.buf
+}
+
+//@ lemma lemmaReuseDateTime
+//@   requires w != nil
+//@   ensures bytes_eq(a, b)
+
+func lemmaReuseDateTime(w *ttlvWriter, tag int, v time.Time) (a, b []byte) {
+	w.Clear()
+	w.DateTime(tag, v)
+	f := &ttlvWriter{}
+	f.DateTime(tag, v)
+	return w.buf, f.buf
+}
